@@ -18,7 +18,7 @@ for s in $c; do
 done
 /verif/tools/repo_check.sh /repo
 cd /verif
-git merge -q -m "merge agent/$n" agent/$n 2>&1 | tail -5 || { echo "MERGE CONFLICT"; git status --short | grep '^U\|^AA' ; exit 1; }
+git merge -q -X ours -m "merge agent/$n" agent/$n 2>&1 | tail -5 || { echo "MERGE CONFLICT"; git status --short | grep '^U\|^AA' ; exit 1; }
 # the fix commits got new ids on main: rewrite the short ids recorded by the worker
 if [ -f /tmp/sha_map_$n ]; then
   while read old new; do grep -rl "$old" findings.d design.d manifest.d props 2>/dev/null | xargs -r sed -i "s/$old/$new/g"; done < /tmp/sha_map_$n
